@@ -373,6 +373,7 @@ class Sim:
         self.kp = None
         self.log = []             # events of the current process call
         self.observe = observe    # oracle hooks
+        self.in_cpr = False
         app.future = None
 
     # -- filters
@@ -498,6 +499,39 @@ class Sim:
     def wrap(self):
         if self.kp is not None and not isinstance(self.kp._process_coroutine, CoProxy):
             self.kp._process_coroutine = CoProxy(self, self.kp._process_coroutine)
+        if self.kp is not None and hasattr(self.kp, "_process_cpr_response") and not getattr(self.kp, "_cpr_wrapped", False):
+            orig = self.kp._process_cpr_response
+
+            def cpr(key_press, orig=orig):
+                self.on_cpr_entry(key_press)
+                try:
+                    return orig(key_press)
+                finally:
+                    self.on_cpr_exit(key_press)
+            self.kp._process_cpr_response = cpr
+            self.kp._cpr_wrapped = True
+
+    def on_cpr_entry(self, kp):
+        self.in_cpr = True
+        self.log.append({"kind": "P", "key": kp})
+        self.cur = {"kind": "cpr", "key": kp, "first": len(self.log), "buf": list(self.kp.key_buffer),
+                    "prev": list(self.kp._previous_key_sequence)}
+        if self.observe:
+            self.observe.on_cpr_entry(self, kp)
+
+    def on_cpr_exit(self, kp):
+        self.in_cpr = False
+        cur = self.cur
+        calls = [r for r in self.log[cur["first"]:] if r["kind"] == "call"]
+        if calls:
+            for c in calls:
+                c["kind"] = "cprcall"
+                # Binding.call is used directly: EditReadOnlyBuffer is not swallowed on this path
+                c["tail"] = ["R" if t == "L" else t for t in c["tail"]]
+        else:
+            self.log.append({"kind": "cprnone", "key": kp})
+        if self.observe:
+            self.observe.on_cpr_exit(self, kp, cur, calls)
 
     def on_send_entry(self, kp):
         buf = list(self.kp.key_buffer)
@@ -563,6 +597,11 @@ class Sim:
                 out.append("P" + self.repr_kp(r["key"]))
             elif r["kind"] == "requeue":
                 out.append("Q" + self.repr_kps(r["keys"]))
+            elif r["kind"] == "cprcall":
+                out.append("K%d%s%s" % (r["hid"], self.repr_kps(r["seq"]), self.repr_kps(r["prev"])))
+                out += r["tail"]
+            elif r["kind"] == "cprnone":
+                out.append("KN[%s]" % self.repr_kp(r["key"]))
             else:
                 out.append(r["kind"])
         return out
@@ -658,6 +697,8 @@ class Sim:
                 self.observe.on_process_start(self)
             try:
                 self.kp.process_keys()
+            except EditReadOnlyBuffer:
+                pass        # only possible on the CPR path (Binding.call without the bell handling)
             except RuntimeError as e:
                 if "raises" not in str(e):
                     raise
@@ -865,7 +906,7 @@ class Observer:
         if self.exp_prev is None:
             self.exp_prev = []
 
-    def on_send_entry(self, sim, kp, buf):
+    def check_pop(self, sim, kp):
         q = list(sim.kp.input_queue)
         done = sim.app.is_done
         # which key had to be taken?
@@ -886,8 +927,41 @@ class Observer:
             if len(rest) != len(q) or any(a is not b for a, b in zip(rest, q)):
                 self.bad("KeyProcessor.process_keys", "queue not preserved",
                          "queue %s -> %s after taking %s" % (sim.repr_kps(self.q_shadow), sim.repr_kps(q), sim.repr_kp(kp)))
+
+    def on_send_entry(self, sim, kp, buf):
+        self.check_pop(sim, kp)
+        if kp is not kpmod._Flush and kp.key == Keys.CPRResponse and hasattr(sim.kp, "_process_cpr_response"):
+            self.bad("KeyProcessor.process_keys", "CPR response sent through the key buffer", sim.repr_kp(kp))
         self.snap = self.snapshot(sim)
         self.snaps_after = []
+
+    def on_cpr_entry(self, sim, kp):
+        self.check_pop(sim, kp)
+        self.snap = self.snapshot(sim)
+
+    def on_cpr_exit(self, sim, kp, cur, calls):
+        self.q_shadow = list(sim.kp.input_queue)
+        if any("R" in c["tail"] for c in calls):
+            self.raised = True
+            return
+        after = list(sim.kp.key_buffer)
+        if len(after) != len(cur["buf"]) or any(a is not b for a, b in zip(after, cur["buf"])):
+            self.bad("KeyProcessor._process_cpr_response", "key buffer touched",
+                     "%s -> %s" % (sim.repr_kps(cur["buf"]), sim.repr_kps(after)))
+        pv = list(sim.kp._previous_key_sequence)
+        if len(pv) != len(cur["prev"]) or any(a is not b for a, b in zip(pv, cur["prev"])):
+            self.bad("KeyProcessor._process_cpr_response", "previous key sequence touched", "")
+        if len(calls) > 1:
+            self.bad("KeyProcessor._process_cpr_response", "delivered more than once", "")
+        if self.snap is None:
+            return
+        c = [e for e in self.snap["view"] if e.active and len(e.keys) == 1 and pat_match(e.keys, (kp.key,))]
+        exp = best(c) if c else None
+        got = calls[0] if calls else None
+        if (exp is None) != (got is None) or (exp is not None and (exp.hid != got["hid"] or len(got["seq"]) != 1
+                                                                   or got["seq"][0] is not kp)):
+            self.bad("KeyProcessor._process_cpr_response", "wrong handler",
+                     "rule: %s, called %s" % (exp and "h%d" % exp.hid, got and "h%d" % got["hid"]))
 
     def on_handler_entry(self, sim, rec):
         if self.exp_prev is not None:
@@ -897,7 +971,7 @@ class Observer:
 
     def on_handler_exit(self, sim, rec):
         rec["snap_after"] = self.snapshot(sim)
-        if "R" not in rec["tail"]:
+        if "R" not in rec["tail"] and not sim.in_cpr:
             self.exp_prev = list(rec["seq"])
 
     def on_send_exit(self, sim, kp, x, after, items):
